@@ -39,8 +39,29 @@ pub fn panic_message(e: Box<dyn std::any::Any + Send>) -> String {
     }
 }
 
+thread_local! {
+    static LAST_PANIC_LOC: std::cell::RefCell<String> = const { std::cell::RefCell::new(String::new()) };
+}
+
+/// Install a panic hook that is silent but remembers the panic location
+/// (file:line) of the last panic on this thread.
 pub fn quiet_panics() {
-    if std::env::var("VERIF_SHOW_PANICS").is_err() { std::panic::set_hook(Box::new(|_| {})); }
+    let show = std::env::var("VERIF_SHOW_PANICS").is_ok();
+    let prev = std::panic::take_hook();
+    std::panic::set_hook(Box::new(move |info| {
+        let loc = info
+            .location()
+            .map(|l| format!("{}:{}", l.file().trim_start_matches("/repo/"), l.line()))
+            .unwrap_or_default();
+        LAST_PANIC_LOC.with(|c| *c.borrow_mut() = loc);
+        if show {
+            prev(info);
+        }
+    }));
+}
+
+pub fn last_panic_location() -> String {
+    LAST_PANIC_LOC.with(|c| c.borrow().clone())
 }
 
 /// Run program text; outputs rendered with Display.
@@ -56,7 +77,7 @@ pub fn run_raw(eg: &mut EGraph, text: &str) -> Result<Vec<CommandOutput>, Outcom
     match r {
         Ok(Ok(outs)) => Ok(outs),
         Ok(Err(e)) => Err(Outcome::Err(e.to_string())),
-        Err(p) => Err(Outcome::Panic(panic_message(p))),
+        Err(p) => Err(Outcome::Panic(format!("{} @ {}", panic_message(p), last_panic_location()))),
     }
 }
 
